@@ -153,10 +153,13 @@ class Ctx:
             body = f["body"]
             def has(adt):
                 return self.has_struct(f, adt)
+
+            def has_deep(adt):
+                return self.has_struct_deep(f, adt)
             # archive writer / opener / walker / factories / directory codec / root writers / layout / lazy fetch / header io / store mutators / json readers
-            if has("header::Header") and any(n.startswith("header::Header::to_") and "writer" in n for n in names):
+            if any(n.startswith("header::Header::to_") and "writer" in n for n in names) and has_deep("header::Header"):
                 out.add(f["path"])
-            if has("pmtiles::PMTiles") and any(n.startswith("header::Header::from_") and "reader" in n for n in names):
+            if any(n.startswith("header::Header::from_") and "reader" in n for n in names) and has_deep("pmtiles::PMTiles"):
                 out.add(f["path"])
             if f["path"] in names and any(n.startswith("directory::Directory::from_") and "reader" in n for n in names):
                 out.add(f["path"])
@@ -217,6 +220,22 @@ class Ctx:
                 return True
         return False
 
+    def has_struct_deep(self, f, adt):
+        """f builds a value of `adt` itself or through private helpers it calls (which the interpreter evaluates in place)"""
+        if self.has_struct(f, adt):
+            return True
+        seen, work = set(), [f]
+        while work:
+            g = work.pop()
+            for c in calls(g["body"]):
+                h = self.fn(c["fn"])
+                if h is not None and h["vis"] != "pub" and h["path"] not in seen and h["path"] != f["path"]:
+                    seen.add(h["path"])
+                    if self.has_struct(h, adt):
+                        return True
+                    work.append(h)
+        return False
+
     def callgraph(self):
         if "cg" not in self._roles:
             cg = {}
@@ -265,7 +284,7 @@ class Ctx:
         """local functions that build a `Header { .. }` and hand it to `Header::to_writer*`"""
         out = []
         for f in self.user_fns():
-            if self.has_struct(f, "header::Header") and any(c["fn"].startswith("header::Header::to_") and "writer" in c["fn"] for c in calls(f["body"])):
+            if any(c["fn"].startswith("header::Header::to_") and "writer" in c["fn"] for c in calls(f["body"])) and self.has_struct_deep(f, "header::Header"):
                 out.append(f)
         return out
 
@@ -273,7 +292,7 @@ class Ctx:
         """local functions that parse a header from a stream and build a `PMTiles { .. }`"""
         out = []
         for f in self.user_fns():
-            if self.has_struct(f, "pmtiles::PMTiles") and any(c["fn"].startswith("header::Header::from_") and "reader" in c["fn"] for c in calls(f["body"])):
+            if any(c["fn"].startswith("header::Header::from_") and "reader" in c["fn"] for c in calls(f["body"])) and self.has_struct_deep(f, "pmtiles::PMTiles"):
                 out.append(f)
         return out
 
